@@ -626,6 +626,10 @@ def run(ctx):
                'CallableSpec.__init__: %s: the body of a math environment declared with '
                'is_math_mode=True is parsed in text mode' % why, construct='CallableSpec.__init__: is_math_mode')
     ctx.assume('user-supplied child-state factories and custom deltas are outside the rule')
+    # ---- R10j
+    ctx.rule('R10j', 'a chain of parsing-state deltas is applied to the running state, step by step', 1)
+    _delta_chain_threading(ctx, repo)
+
     return 'other', (
         'Decides the places where the mode of a node is determined: the math parser\'s contents '
         'state and recorded fields, the walker events, the per-argument / per-body deltas, the '
@@ -665,3 +669,45 @@ def look_behind_scan(ctx, rule, tr, consequence):
                             construct='%s: look-behind %s' % (fname_, short(x, 40)))
     ctx.holds(rule, tr, None, 'no impl_* method of the token reader reads s before pos',
               construct='look-behind scan', trivial=True)
+
+
+
+def _delta_chain_threading(ctx, repo):
+    """R10j: a loop that applies a sequence of parsing-state deltas threads the running state:
+    every re-binding of the accumulated state inside the loop is computed from its previous value"""
+    dm = repo.mod('pylatexenc.latexnodes._parsingstatedelta')
+    n = 0
+    for q, f in sorted(dm.functions.items()):
+        for lp in [l for l in f.body if isinstance(l, ast.For)]:
+            rets = [r for r in f.body if isinstance(r, ast.Return) and isinstance(r.value, ast.Name)]
+            if not rets:
+                continue
+            acc = rets[-1].value.id
+            if not any(isinstance(x, ast.Name) and x.id == acc and isinstance(x.ctx, ast.Store) for x in ast.walk(lp)):
+                continue
+            n += 1
+            try:
+                cases = [c for c in symex.Walker(want_exits=True).run_block(lp.body) if c.kind in ('end', 'continue')]
+            except symex.TooManyPaths:
+                ctx.unknown('R10j', dm, lp, 'too many paths', construct='%s: chained deltas' % q)
+                continue
+            bad = None
+            n_re = 0
+            for cs in cases:
+                v = cs.env.get(acc)
+                if acc not in cs.env or (isinstance(v, ast.AST) and unparse(v) == acc):
+                    continue
+                n_re += 1
+                d = symex.resolve(v, cs.env) if isinstance(v, ast.AST) else cs.env.get('#def', {}).get(acc)
+                uses = d is not None and any(isinstance(x, ast.Name) and x.id == acc for x in ast.walk(d))
+                if not uses and bad is None:
+                    bad = (cs, d)
+            ctx.decide('R10j', bad is None and n_re > 0, dm, lp,
+                       '%s: every step is computed from the running state %s (%d re-binding path(s))' % (q, acc, n_re),
+                       '%s: inside the loop %s is re-bound to %s, which is not computed from the running value of %s: '
+                       'each delta is applied to the original state and only the last one survives (a math/text switch '
+                       'chained with another change is lost)' % (q, acc, short(bad[1], 70) if bad and bad[1] is not None
+                                                                  else '?', acc),
+                       construct='%s: chained deltas' % q)
+    if n == 0:
+        ctx.unknown('R10j', dm, None, 'no loop applying a sequence of deltas found', construct='chained deltas')
